@@ -69,6 +69,9 @@ func NewVoteDB(db youdb.Database, rawSk *ecdsa.PrivateKey) *VoteDB {
 		} else if v.round.Cmp(vote.Round) == 0 && v.roundIndex == vote.RoundIndex {
 			v.mark[VoteType(vote.VoteType)] = v.mark[VoteType(vote.VoteType)] + 1
 		} else {
+			// a newer context than the records replayed so far: move to it
+			v.round = vote.Round
+			v.roundIndex = vote.RoundIndex
 			v.mark = make(map[VoteType]uint8)
 			v.mark[VoteType(vote.VoteType)] = 1
 		}
